@@ -260,3 +260,356 @@ Proof.
     + exists batch, raws. split; [reflexivity|]. rewrite map_map. reflexivity.
     + exfalso. apply H. apply split_msgs_none. exact E.
 Qed.
+
+(* ------------------------------------------------------------------------- *)
+(* C. the member parser as a function of the field MAP: characterisation of parse_fields on a
+   duplicate-free field list, hence independence from Go's map iteration order *)
+
+Definition keys_of (fs : list (bytes * bytes)) : list bytes := map fst fs.
+
+Lemma lookup_none k fs : ~ In k (keys_of fs) -> lookup k fs = None.
+Proof.
+  induction fs as [|[k' v] fs IH]; intros H; [reflexivity|]. cbn [lookup].
+  destruct (beq_spec k' k) as [->|N]; [exfalso; apply H; left; reflexivity|]. apply IH. intros Hi; apply H; right; exact Hi.
+Qed.
+
+Lemma lookup_app_last k k' v fs :
+  lookup k (fs ++ [(k', v)]) = match lookup k fs with Some x => Some x | None => if beq k' k then Some v else None end.
+Proof.
+  induction fs as [|[k2 v2] fs IH]; cbn [app lookup]; [reflexivity|]. destruct (beq k2 k); [reflexivity | exact IH].
+Qed.
+
+Lemma key_defects_app a b : key_defects (a ++ b) = key_defects a ++ key_defects b.
+Proof.
+  induction a as [|kv a IH]; [reflexivity|]. cbn [app key_defects]. destruct (key_defect kv); rewrite IH; reflexivity.
+Qed.
+
+Lemma extras_app a b : extras (a ++ b) = extras a ++ extras b.
+Proof. unfold extras. rewrite filter_app, map_app. reflexivity. Qed.
+
+Definition id_field (fs : list (bytes * bytes)) : bytes :=
+  match lookup k_id fs with Some v => if is_valid_id v then v else [] | None => [] end.
+Definition params_field (fs : list (bytes * bytes)) : bytes :=
+  match lookup k_params fs with Some v => if is_null v then [] else v | None => [] end.
+Definition error_field (fs : list (bytes * bytes)) : option werr :=
+  match lookup k_error fs with Some v => fst (unmarshal_error v) | None => None end.
+Definition result_field (fs : list (bytes * bytes)) : bytes :=
+  match lookup k_result fs with Some v => v | None => [] end.
+
+(* the state of the scan after the fields fs (any order), as a function of the map *)
+Definition summary (fs : list (bytes * bytes)) : pstate :=
+  {| ps_v := str_field k_jsonrpc fs;
+     ps_m := {| j_id := id_field fs; j_method := str_field k_method fs; j_params := params_field fs;
+                j_error := error_field fs; j_result := result_field fs; j_err := hd_error (key_defects fs) |};
+     ps_extra := extras fs |}.
+
+Lemma classify_spec k :
+  match classify k with
+  | KVersion => k = k_jsonrpc | KId => k = k_id | KMethod => k = k_method | KParams => k = k_params
+  | KError => k = k_error | KResult => k = k_result
+  | KOther => beq k k_jsonrpc = false /\ beq k k_id = false /\ beq k k_method = false /\ beq k k_params = false /\
+              beq k k_error = false /\ beq k k_result = false
+  end.
+Proof.
+  unfold classify.
+  destruct (beq_spec k k_jsonrpc); [assumption|]. destruct (beq_spec k k_id); [assumption|].
+  destruct (beq_spec k k_method); [assumption|]. destruct (beq_spec k k_params); [assumption|].
+  destruct (beq_spec k k_error); [assumption|]. destruct (beq_spec k k_result); [assumption|].
+  repeat split; reflexivity.
+Qed.
+
+Lemma hd_error_app_l {A} (a b : list A) : hd_error (a ++ b) = match hd_error a with Some x => Some x | None => hd_error b end.
+Proof. destruct a; reflexivity. Qed.
+
+Lemma fail_err e m : j_err (fail e m) = match j_err m with Some x => Some x | None => Some e end.
+Proof. unfold fail. destruct (j_err m) eqn:E; [exact E | reflexivity]. Qed.
+
+Ltac lk := rewrite ?lookup_app_last; cbn [beq k_jsonrpc k_id k_method k_params k_error k_result N.eqb Pos.eqb andb].
+
+Lemma scan_summary fs k v : ~ In k (keys_of fs) -> scan_field (summary fs) (k, v) = summary (fs ++ [(k, v)]).
+Proof.
+  intros Hnew. pose proof (lookup_none _ _ Hnew) as Hl.
+  unfold scan_field. pose proof (classify_spec k) as Hc.
+  unfold summary. cbn [ps_m ps_v ps_extra]. unfold str_field, id_field, params_field, error_field, result_field.
+  rewrite key_defects_app, extras_app, hd_error_app_l. cbn [key_defects key_defect].
+  destruct (classify k) eqn:Ek.
+  - (* jsonrpc *) subst k. lk. rewrite Hl.
+    destruct (lookup k_id fs), (lookup k_method fs), (lookup k_params fs), (lookup k_error fs), (lookup k_result fs);
+    (destruct (unmarshal_string v) as [[s|]|] eqn:Ev; unfold summary, str_field, id_field, params_field, error_field, result_field, fail;
+     cbn [ps_m ps_v ps_extra j_err j_id j_method j_params j_error j_result]; rewrite ?Hl, ?app_nil_r;
+     destruct (hd_error (key_defects fs)); reflexivity).
+  - (* id *) subst k. lk. rewrite Hl.
+    destruct (lookup k_jsonrpc fs), (lookup k_method fs), (lookup k_params fs), (lookup k_error fs), (lookup k_result fs);
+    (destruct (is_valid_id v) eqn:Ev; unfold summary, str_field, id_field, params_field, error_field, result_field, fail, set_id;
+     cbn [ps_m ps_v ps_extra j_err j_id j_method j_params j_error j_result]; rewrite ?Hl, ?app_nil_r;
+     destruct (hd_error (key_defects fs)); reflexivity).
+  - (* method *) subst k. lk. rewrite Hl.
+    destruct (lookup k_jsonrpc fs), (lookup k_id fs), (lookup k_params fs), (lookup k_error fs), (lookup k_result fs);
+    (destruct (unmarshal_string v) as [[s|]|] eqn:Ev; unfold summary, str_field, id_field, params_field, error_field, result_field, fail, set_method;
+     cbn [ps_m ps_v ps_extra j_err j_id j_method j_params j_error j_result]; rewrite ?Hl, ?app_nil_r;
+     destruct (hd_error (key_defects fs)); reflexivity).
+  - (* params *) subst k. lk. rewrite Hl.
+    assert (Hp0 : params_ok [] = true) by reflexivity.
+    destruct (lookup k_jsonrpc fs), (lookup k_id fs), (lookup k_method fs), (lookup k_error fs), (lookup k_result fs);
+    (unfold summary, str_field, id_field, params_field, error_field, result_field;
+     cbn [ps_m ps_v ps_extra j_err j_id j_method j_params j_error j_result]; rewrite ?Hl;
+     destruct (is_null v) eqn:Ev; cbn [orb]; unfold set_params, fail;
+     cbn [ps_m ps_v ps_extra j_err j_id j_method j_params j_error j_result]; rewrite ?Hp0;
+     [| destruct (params_ok v)];
+     cbn [ps_m ps_v ps_extra j_err j_id j_method j_params j_error j_result]; rewrite ?app_nil_r;
+     destruct (hd_error (key_defects fs)); reflexivity).
+  - (* error *) subst k. lk. rewrite Hl.
+    destruct (lookup k_jsonrpc fs), (lookup k_id fs), (lookup k_method fs), (lookup k_params fs), (lookup k_result fs);
+    (destruct (unmarshal_error v) as [e ok] eqn:Ev; cbn [fst snd];
+     unfold summary, str_field, id_field, params_field, error_field, result_field, fail, set_error;
+     cbn [ps_m ps_v ps_extra j_err j_id j_method j_params j_error j_result]; rewrite ?Hl;
+     destruct ok; cbn [ps_m ps_v ps_extra j_err j_id j_method j_params j_error j_result]; rewrite ?app_nil_r;
+     destruct (hd_error (key_defects fs)); reflexivity).
+  - (* result *) subst k. lk. rewrite Hl.
+    destruct (lookup k_jsonrpc fs), (lookup k_id fs), (lookup k_method fs), (lookup k_params fs), (lookup k_error fs);
+    (unfold summary, str_field, id_field, params_field, error_field, result_field, set_result;
+     cbn [ps_m ps_v ps_extra j_err j_id j_method j_params j_error j_result]; rewrite ?Hl, ?app_nil_r;
+     destruct (hd_error (key_defects fs)); reflexivity).
+  - (* other *) destruct Hc as (H1 & H2 & H3 & H4 & H5 & H6). rewrite !lookup_app_last, H1, H2, H3, H4, H5, H6.
+    replace (extras [(k, v)]) with [k] by (unfold extras; cbn [filter fst map]; rewrite Ek; reflexivity).
+    destruct (lookup k_jsonrpc fs), (lookup k_id fs), (lookup k_method fs), (lookup k_params fs), (lookup k_error fs), (lookup k_result fs);
+    (unfold summary, str_field, id_field, params_field, error_field, result_field;
+     cbn [ps_m ps_v ps_extra j_err j_id j_method j_params j_error j_result]; rewrite ?app_nil_r;
+     destruct (hd_error (key_defects fs)); reflexivity).
+Qed.
+
+Lemma fold_summary fs : NoDup (keys_of fs) -> fold_left scan_field fs ps_init = summary fs.
+Proof.
+  induction fs as [|[k v] fs IH] using rev_ind; intros Hnd; [reflexivity|].
+  unfold keys_of in Hnd. rewrite map_app in Hnd. cbn [map fst] in Hnd.
+  apply NoDup_remove in Hnd as [Hnd Hnin]. rewrite app_nil_r in Hnd, Hnin.
+  rewrite fold_left_app. cbn [fold_left]. rewrite (IH Hnd). apply scan_summary. exact Hnin.
+Qed.
+
+Definition nonempty_vals (fs : list (bytes * bytes)) : Prop := Forall (fun kv => snd kv <> []) fs.
+
+Lemma lookup_in k v fs : lookup k fs = Some v -> In (k, v) fs.
+Proof.
+  induction fs as [|[k' v'] fs IH]; [discriminate|]. cbn [lookup]. destruct (beq_spec k' k) as [->|N].
+  - intros H; injection H as ->. left; reflexivity.
+  - intros H. right. exact (IH H).
+Qed.
+
+Lemma finish_err st :
+  j_err (finish st) =
+  match j_err (ps_m st) with
+  | Some d => Some d
+  | None =>
+    if negb (beq (ps_v st) version) then Some e_bad_version
+    else if negb (beq (j_method (ps_m st)) []) && (is_some (j_error (ps_m st)) || negb (beq (j_result (ps_m st)) [])) then Some e_mixed
+    else match ps_extra st with [] => None | _ :: _ => Some (e_extra (ps_extra st)) end
+  end.
+Proof.
+  unfold finish, fail. destruct (j_err (ps_m st)) eqn:E0; destruct (beq (ps_v st) version);
+  cbn [negb j_method j_error j_result j_err]; rewrite ?E0;
+  destruct (negb (beq (j_method (ps_m st)) []) && (is_some (j_error (ps_m st)) || negb (beq (j_result (ps_m st)) [])));
+  cbn [negb j_method j_error j_result j_err]; rewrite ?E0; try reflexivity;
+  destruct (ps_extra st); cbn [j_err]; rewrite ?E0; reflexivity.
+Qed.
+
+Lemma finish_summary_err fs : nonempty_vals fs ->
+  j_err (finish (summary fs)) = hd_error (allowed_errs_fields fs).
+Proof.
+  intros Hne. rewrite finish_err. unfold allowed_errs_fields, summary. cbn [ps_m ps_v ps_extra j_method j_error j_result j_err].
+  destruct (key_defects fs) as [|d ds] eqn:Ed; cbn [hd_error]; [|reflexivity].
+  assert (Hres : negb (beq (result_field fs) []) = is_some (lookup k_result fs)).
+  { unfold result_field. destruct (lookup k_result fs) as [v|] eqn:El; [|reflexivity].
+    apply lookup_in in El. unfold nonempty_vals in Hne. rewrite Forall_forall in Hne. specialize (Hne _ El). cbn [snd] in Hne.
+    destruct (beq_spec v []); [contradiction | reflexivity]. }
+  assert (Herr : is_some (error_field fs) = has_error_value fs) by (unfold error_field, has_error_value; destruct (lookup k_error fs); reflexivity).
+  rewrite Hres, Herr.
+  destruct (negb (beq (str_field k_jsonrpc fs) version)); [reflexivity|].
+  destruct (negb (beq (str_field k_method fs) []) && (has_error_value fs || is_some (lookup k_result fs))); [reflexivity|].
+  destruct (extras fs); reflexivity.
+Qed.
+
+Lemma fail_fields e m : j_id (fail e m) = j_id m /\ j_method (fail e m) = j_method m /\ j_params (fail e m) = j_params m /\
+                        j_error (fail e m) = j_error m /\ j_result (fail e m) = j_result m.
+Proof. unfold fail. destruct (j_err m); repeat split; reflexivity. Qed.
+
+Definition same_fields (a b : jmsg) : Prop :=
+  j_id a = j_id b /\ j_method a = j_method b /\ j_params a = j_params b /\ j_error a = j_error b /\ j_result a = j_result b.
+
+Lemma same_fields_fail e m : same_fields (fail e m) m.
+Proof. exact (fail_fields e m). Qed.
+
+Lemma same_fields_trans a b c : same_fields a b -> same_fields b c -> same_fields a c.
+Proof. unfold same_fields. intuition congruence. Qed.
+
+Lemma same_fields_refl a : same_fields a a.
+Proof. repeat split. Qed.
+
+Lemma finish_fields st : same_fields (finish st) (ps_m st).
+Proof.
+  unfold finish.
+  set (m1 := if beq (ps_v st) version then ps_m st else fail e_bad_version (ps_m st)).
+  assert (H1 : same_fields m1 (ps_m st)) by (unfold m1; destruct (beq (ps_v st) version); [apply same_fields_refl | apply same_fields_fail]).
+  set (m2 := if negb (beq (j_method m1) []) && (is_some (j_error m1) || negb (beq (j_result m1) [])) then fail e_mixed m1 else m1).
+  assert (H2 : same_fields m2 m1) by (unfold m2; destruct (negb (beq (j_method m1) []) && _); [apply same_fields_fail | apply same_fields_refl]).
+  destruct (j_err m2); [|destruct (ps_extra st)]; try exact (same_fields_trans _ _ _ H2 H1).
+  exact (same_fields_trans _ _ _ (same_fields_fail _ _) (same_fields_trans _ _ _ H2 H1)).
+Qed.
+
+(* the result of the member scan, for any duplicate-free field order *)
+Lemma parse_fields_char fs : NoDup (keys_of fs) -> nonempty_vals fs ->
+  j_err (parse_fields fs) = hd_error (allowed_errs_fields fs) /\
+  j_id (parse_fields fs) = id_field fs /\ j_method (parse_fields fs) = str_field k_method fs /\
+  j_params (parse_fields fs) = params_field fs /\ j_error (parse_fields fs) = error_field fs /\
+  j_result (parse_fields fs) = result_field fs.
+Proof.
+  intros Hnd Hne. unfold parse_fields. rewrite (fold_summary _ Hnd). split; [apply finish_summary_err; exact Hne|].
+  destruct (finish_fields (summary fs)) as (A & B & C & D & E). rewrite A, B, C, D, E. repeat split.
+Qed.
+
+(* permutations of a duplicate-free field list *)
+Lemma lookup_perm k fs fs' : NoDup (keys_of fs) -> Permutation fs fs' -> lookup k fs = lookup k fs'.
+Proof.
+  intros Hnd Hp. induction Hp as [|[k1 v1] l l' Hp IH|[k1 v1] [k2 v2] l|l1 l2 l3 Hp1 IH1 Hp2 IH2].
+  - reflexivity.
+  - cbn [lookup]. cbn [keys_of map fst] in Hnd. apply NoDup_cons_iff in Hnd as [_ Hnd]. rewrite (IH Hnd). reflexivity.
+  - cbn [lookup]. cbn [keys_of map fst] in Hnd. apply NoDup_cons_iff in Hnd as [Hn _].
+    destruct (beq_spec k1 k) as [->|N1], (beq_spec k2 k) as [->|N2]; try reflexivity.
+    exfalso. apply Hn. left; reflexivity.
+  - rewrite (IH1 Hnd). apply IH2. unfold keys_of in *. eapply Permutation_NoDup; [apply Permutation_map; exact Hp1 | exact Hnd].
+Qed.
+
+Lemma key_defects_perm fs fs' : Permutation fs fs' -> Permutation (key_defects fs) (key_defects fs').
+Proof.
+  induction 1 as [|kv l l' Hp IH|kv1 kv2 l|l1 l2 l3 Hp1 IH1 Hp2 IH2]; cbn [key_defects].
+  - constructor.
+  - destruct (key_defect kv); [constructor|]; exact IH.
+  - destruct (key_defect kv1), (key_defect kv2); try apply Permutation_refl. apply perm_swap.
+  - eapply Permutation_trans; eassumption.
+Qed.
+
+Lemma extras_perm fs fs' : Permutation fs fs' -> Permutation (extras fs) (extras fs').
+Proof.
+  intros H. unfold extras. apply Permutation_map.
+  induction H as [|kv l l' Hp IH|kv1 kv2 l|l1 l2 l3 Hp1 IH1 Hp2 IH2]; cbn [filter].
+  - constructor.
+  - destruct (match classify (fst kv) with KOther => true | _ => false end); [constructor|]; exact IH.
+  - destruct (match classify (fst kv1) with KOther => true | _ => false end),
+             (match classify (fst kv2) with KOther => true | _ => false end); try apply Permutation_refl. apply perm_swap.
+  - eapply Permutation_trans; eassumption.
+Qed.
+
+(* two reports are the same defect: equal, or the "extra fields" error listing the same keys in another order *)
+Definition werr_equiv (e a : werr) : Prop :=
+  e = a \/ exists ks ks', e = e_extra ks /\ a = e_extra ks' /\ Permutation ks ks'.
+
+Definition allowed_rel (A B : list werr) : Prop :=
+  Permutation A B \/ exists ks ks', A = [e_extra ks] /\ B = [e_extra ks'] /\ Permutation ks ks'.
+
+Lemma allowed_perm fs fs' : NoDup (keys_of fs) -> Permutation fs fs' ->
+  allowed_rel (allowed_errs_fields fs) (allowed_errs_fields fs').
+Proof.
+  intros Hnd Hp. unfold allowed_errs_fields.
+  pose proof (key_defects_perm _ _ Hp) as Hk.
+  destruct (key_defects fs) as [|d ds] eqn:E1.
+  - apply Permutation_nil in Hk. rewrite Hk.
+    unfold str_field, has_error_value. rewrite <- !(lookup_perm _ _ _ Hnd Hp).
+    destruct (negb (beq match lookup k_jsonrpc fs with Some v => match unmarshal_string v with Some (Some s) => s | _ => [] end | None => [] end version));
+      [left; apply Permutation_refl|].
+    destruct (negb (beq match lookup k_method fs with Some v => match unmarshal_string v with Some (Some s) => s | _ => [] end | None => [] end []) &&
+              (match lookup k_error fs with Some v => is_some (fst (unmarshal_error v)) | None => false end || is_some (lookup k_result fs)));
+      [left; apply Permutation_refl|].
+    pose proof (extras_perm _ _ Hp) as He.
+    destruct (extras fs) as [|x xs] eqn:E2.
+    + apply Permutation_nil in He. rewrite He. left; constructor.
+    + destruct (extras fs') as [|y ys] eqn:E3; [apply Permutation_sym, Permutation_nil in He; discriminate|].
+      right. exists (x :: xs), (y :: ys). repeat split. exact He.
+  - destruct (key_defects fs') as [|d' ds'] eqn:E2; [apply Permutation_sym, Permutation_nil in Hk; discriminate|].
+    left. exact Hk.
+Qed.
+
+Definition known_code (a : werr) : Prop := we_code a = ParseError \/ we_code a = InvalidRequest.
+
+Lemma key_defect_code kv e : key_defect kv = Some e -> known_code e.
+Proof.
+  unfold key_defect, known_code. destruct kv as [k v]. intros H. break H; injection H as <-; cbn; auto.
+Qed.
+
+Lemma key_defects_code fs e : In e (key_defects fs) -> known_code e.
+Proof.
+  induction fs as [|kv fs IH]; cbn [key_defects]; [contradiction|].
+  destruct (key_defect kv) as [d|] eqn:E; [|exact IH]. intros [<-|H]; [exact (key_defect_code _ _ E) | exact (IH H)].
+Qed.
+
+Lemma allowed_codes fs a : In a (allowed_errs_fields fs) -> known_code a.
+Proof.
+  unfold allowed_errs_fields. destruct (key_defects fs) as [|d ds] eqn:E.
+  - unfold known_code. intros H. break H; try contradiction; destruct H as [<-|[]]; cbn; auto.
+  - rewrite <- E. apply key_defects_code.
+Qed.
+
+Lemma key_defects_in fs e : In e (key_defects fs) -> exists kv, In kv fs /\ key_defect kv = Some e.
+Proof.
+  induction fs as [|kv fs IH]; cbn [key_defects]; [contradiction|].
+  destruct (key_defect kv) as [d|] eqn:E.
+  - intros [<-|H]; [exists kv; split; [left; reflexivity | exact E]|]. destruct (IH H) as (kv' & A & B). exists kv'. split; [right|]; assumption.
+  - intros H. destruct (IH H) as (kv' & A & B). exists kv'. split; [right|]; assumption.
+Qed.
+
+Lemma nodup_perm fs fs' : NoDup (keys_of fs) -> Permutation fs fs' -> NoDup (keys_of fs').
+Proof. intros H P. unfold keys_of in *. eapply Permutation_NoDup; [apply Permutation_map; exact P | exact H]. Qed.
+
+Lemma nonempty_perm fs fs' : nonempty_vals fs -> Permutation fs fs' -> nonempty_vals fs'.
+Proof. unfold nonempty_vals. intros H P. eapply Permutation_Forall; eassumption. Qed.
+
+(* ORDER INDEPENDENCE of the member scan *)
+Lemma fields_order_independent fs fs' : NoDup (keys_of fs) -> nonempty_vals fs -> Permutation fs fs' ->
+  same_fields (parse_fields fs') (parse_fields fs) /\
+  (j_err (parse_fields fs') = None <-> j_err (parse_fields fs) = None) /\
+  (j_err (parse_fields fs) = None <-> allowed_errs_fields fs = []) /\
+  (forall e, j_err (parse_fields fs') = Some e -> exists a, In a (allowed_errs_fields fs) /\ werr_equiv e a) /\
+  (forall a, In a (allowed_errs_fields fs) -> known_code a) /\
+  (forall a, In a (allowed_errs_fields fs) ->
+     exists fs'' e, Permutation fs fs'' /\ j_err (parse_fields fs'') = Some e /\ werr_equiv e a).
+Proof.
+  intros Hnd Hne Hp.
+  pose proof (nodup_perm _ _ Hnd Hp) as Hnd'. pose proof (nonempty_perm _ _ Hne Hp) as Hne'.
+  destruct (parse_fields_char fs Hnd Hne) as (E & F1 & F2 & F3 & F4 & F5).
+  destruct (parse_fields_char fs' Hnd' Hne') as (E' & G1 & G2 & G3 & G4 & G5).
+  pose proof (allowed_perm _ _ Hnd Hp) as Hrel.
+  assert (Hhd : forall e, hd_error (allowed_errs_fields fs') = Some e -> exists a, In a (allowed_errs_fields fs) /\ werr_equiv e a).
+  { intros e He. destruct Hrel as [P|(ks & ks' & A & B & P)].
+    - exists e. split; [|left; reflexivity]. eapply Permutation_in; [apply Permutation_sym; exact P|].
+      destruct (allowed_errs_fields fs'); [discriminate|]. injection He as ->. left; reflexivity.
+    - rewrite B in He. injection He as <-. exists (e_extra ks). rewrite A. split; [left; reflexivity|].
+      right. exists ks', ks. repeat split. apply Permutation_sym; exact P. }
+  assert (Hnil : allowed_errs_fields fs' = [] <-> allowed_errs_fields fs = []).
+  { destruct Hrel as [P|(ks & ks' & A & B & P)].
+    - split; intros H; rewrite H in P; [apply Permutation_sym in P|]; apply Permutation_nil in P; exact P.
+    - rewrite A, B. split; discriminate. }
+  assert (Hnone : forall l : list werr, hd_error l = None <-> l = []) by (intros [|x l]; split; auto; discriminate).
+  repeat split.
+  - rewrite G1, F1. unfold id_field. rewrite (lookup_perm _ _ _ Hnd Hp). reflexivity.
+  - rewrite G2, F2. unfold str_field. rewrite (lookup_perm _ _ _ Hnd Hp). reflexivity.
+  - rewrite G3, F3. unfold params_field. rewrite (lookup_perm _ _ _ Hnd Hp). reflexivity.
+  - rewrite G4, F4. unfold error_field. rewrite (lookup_perm _ _ _ Hnd Hp). reflexivity.
+  - rewrite G5, F5. unfold result_field. rewrite (lookup_perm _ _ _ Hnd Hp). reflexivity.
+  - rewrite E', E, !Hnone. apply Hnil.
+  - rewrite E', E, !Hnone. apply Hnil.
+  - rewrite E. apply Hnone.
+  - rewrite E. apply Hnone.
+  - rewrite E'. exact Hhd.
+  - apply allowed_codes.
+  - intros a Ha. unfold allowed_errs_fields in Ha. destruct (key_defects fs) as [|d ds] eqn:Ed.
+    + (* a single post-scan defect: reported in every order *)
+      exists fs, a. split; [apply Permutation_refl|]. split; [|left; reflexivity].
+      rewrite E. unfold allowed_errs_fields. rewrite Ed.
+      break Ha; try contradiction; destruct Ha as [<-|[]]; reflexivity.
+    + (* a key defect: reported by the order that visits its key first *)
+      rewrite <- Ed in Ha. destruct (key_defects_in _ _ Ha) as (kv & Hin & Hkd).
+      destruct (in_split _ _ Hin) as (l1 & l2 & ->).
+      exists (kv :: l1 ++ l2), a. split; [apply Permutation_sym, Permutation_middle|].
+      split; [|left; reflexivity].
+      assert (P : Permutation (l1 ++ kv :: l2) (kv :: l1 ++ l2)) by apply Permutation_sym, Permutation_middle.
+      destruct (parse_fields_char _ (nodup_perm _ _ Hnd P) (nonempty_perm _ _ Hne P)) as (E2 & _).
+      rewrite E2. unfold allowed_errs_fields. cbn [key_defects]. rewrite Hkd. reflexivity.
+Qed.
